@@ -4,6 +4,14 @@ sub-agent (property text, quantifier, anchors and mechanisms from properties.jso
 import json, pathlib, subprocess, sys, re
 letter = sys.argv[1]
 STYLE = {
+ 'i': ("Look at the list above and deliberately pick a COMPONENT x MECHANISM pair that is absent from it. Kinds of mechanism that have hardly been used so "
+       "far: the generator protocol (next / StopIteration / a generator consumed or restarted, a generator function called where an instance is expected), "
+       "the SimPy event lifecycle (triggered vs processed, callbacks, succeed() twice, the value an event carries, any_of / all_of conditions that are "
+       "re-used or evaluated late), numeric details of time arithmetic (float vs int division, rounding, tolerance constants, <= vs < at an exact "
+       "boundary instant), state / policy / mode NAMES and string handling (a state name mistyped in one place, case, a new state not handled by a "
+       "dispatch), inheritance and overriding (a method overridden without calling the base, an attribute shadowed in a subclass, a class attribute vs "
+       "instance attribute), default argument values, the ORDER of two statements inside one instant (stamp before / after, count before / after, "
+       "trigger before / after the list is updated), statistics finalisation at the end of the run. Keep it small and plausible."),
  'h': ("This time target a CONTRACT BETWEEN TWO COMPONENTS rather than one function, and change only ONE side of it so that the other side, unchanged, "
        "now misbehaves: what an edge class promises the nodes that use it (delegation of reserve / put / get / cancel, can_put / can_get, the time stamps and "
        "statistics it updates in its wrapper, the events it fires for its own process); what a store promises its edge (events fired, callbacks registered, "
